@@ -108,6 +108,9 @@ pub fn run_extra(kind: &str, l: &[Sx]) -> String {
         "serscript" => serscript_case(l),
         "respell" => respell_case(l),
         "rtext" => rtext_case(l),
+        "re" => crate::oracles::re_case(l),
+        "relit" => crate::oracles::relit_case(l),
+        "reinv" => crate::oracles::reinv_case(l),
         "script" => script_case(l),
         "foldcall" => foldcall_case(l),
         "hashclass" => hashclass_case(l),
